@@ -381,6 +381,10 @@ func quotaFieldsCopy(q *v1alpha1.ElasticQuota) v1alpha1.ElasticQuota {
 				extension.LabelQuotaParent:   q.Labels[extension.LabelQuotaParent],
 				extension.LabelQuotaIsParent: q.Labels[extension.LabelQuotaIsParent],
 				extension.LabelQuotaTreeID:   q.Labels[extension.LabelQuotaTreeID],
+				// the two labels that exempt a quota from the min-sum checks: switching one
+				// of them must be validated like any other topology change
+				extension.LabelAllowForceUpdate: q.Labels[extension.LabelAllowForceUpdate],
+				extension.LabelQuotaIsRoot:      q.Labels[extension.LabelQuotaIsRoot],
 			},
 			Annotations: map[string]string{
 				extension.AnnotationQuotaNamespaces: q.Annotations[extension.AnnotationQuotaNamespaces],
